@@ -57,3 +57,80 @@ Theorem limit_batch_slice_pinned_refuted :
     end.
 Proof. exact limit_batch_slice_refuted. Qed.
 Print Assumptions limit_batch_slice_pinned_refuted.
+
+(* ================================================================== LIMIT FROM THE QUERY TEXT
+   (appended; Model/PipelineS.v, Proofs/PipelineSProofs.v).  The statement is the TEXT; the plan is
+   what the twin of NewOptimizer(q).BuildPlan builds for it (tied to the Go code on every run by
+   C03's text correspondence, harness/c03.go part F). *)
+From Coq Require Import String ZArith.
+From KV Require Import Base.Bytes Model.Value Model.SelectPlans Model.Pipeline Model.PipelineS Proofs.PipelineSProofs.
+From KV Require Model.Storage Model.Order Proofs.BatchRowProofs Proofs.SelectPlansProofs.
+
+(* LIMIT s, n from the text, row mode: whenever the SAME plan without its LIMIT clause completes with
+   [all], the statement returns exactly rows s .. s+n-1 of [all] ([slice s n all] = firstn n (skipn s
+   all)) -- whichever way buildFinalPlan placed the limit: FinalLimitPlan on top of the projection, on
+   top of the FinalOrderPlan, or pushed into the AggregatePlan (no ORDER BY).  Not conversely by
+   design: the limited plan pulls its child lazily and also completes where a pair / a group beyond
+   the limit fails. *)
+Theorem limit_text_slice :
+  forall (fo : fops) (re : bytes -> bytes -> res bool) (fmt_v : F fo -> string) (ag : aggops fo)
+         (pi pf : bytes -> option Z) (q : string) (d : Storage.store) (pl : splanned fo) (s n : nat)
+         (all : list Order.row),
+  plan_stmt_text fo re fmt_v q = STOk pl ->
+  SelectPlans.s_limit (F fo) (q_stmt fo (sp_q fo pl)) = Some (s, n) ->
+  select_shape_row fo re ag pi pf (no_limit fo (sp_q fo pl))
+                   (stmt_shape (F fo) (q_stmt fo (no_limit fo (sp_q fo pl))))
+                   (scan_slots (sp_scan fo pl) d) = Ok all ->
+  select_stmt_text fo re fmt_v ag pi pf q d MRow = TOk (slice s n all).
+Proof. exact PipelineSProofs.limit_text_slice. Qed.
+Print Assumptions limit_text_slice.
+
+(* batch mode, every B >= 1: a batch drain that completes returns the same slice (up to string /
+   []byte: nrows); premise fields_ok as in C03 *)
+Theorem limit_text_slice_batch :
+  forall (fo : fops) (re : bytes -> bytes -> res bool) (fmt_v : F fo -> string) (ag : aggops fo)
+         (pi pf : bytes -> option Z) (q : string) (d : Storage.store) (pl : splanned fo) (B s n : nat)
+         (all outs : list Order.row),
+  1 <= B ->
+  plan_stmt_text fo re fmt_v q = STOk pl ->
+  BatchRowProofs.fields_ok (q_fields fo (sp_q fo pl)) ->
+  SelectPlans.s_limit (F fo) (q_stmt fo (sp_q fo pl)) = Some (s, n) ->
+  select_shape_row fo re ag pi pf (no_limit fo (sp_q fo pl))
+                   (stmt_shape (F fo) (q_stmt fo (no_limit fo (sp_q fo pl))))
+                   (scan_slots (sp_scan fo pl) d) = Ok all ->
+  select_stmt_text fo re fmt_v ag pi pf q d (MBatch B) = TOk outs ->
+  SelectPlansProofs.nrows outs = SelectPlansProofs.nrows (slice s n all).
+Proof. exact PipelineSProofs.limit_text_slice_batch. Qed.
+Print Assumptions limit_text_slice_batch.
+
+(* non-vacuity: LIMIT 1, 2 on top of ORDER BY, and LIMIT 1, 5 pushed into the AggregatePlan; the
+   unlimited plans complete, and the statements return the slices *)
+Local Open Scope string_scope.
+Definition ps8_store : Storage.store := [("a", "3"); ("ab", "1"); ("b", "2"); ("c", "1")].
+Definition ps8_q1 : string := "select key, int(value) as n where key > '' order by n desc, key limit 1, 2".
+Definition ps8_q2 : string := "select value as g, count(1) as c where key > '' group by g limit 1, 5".
+
+Example limit_text_slice_nonvacuous :
+  forall (fo : fops) (re : bytes -> bytes -> res bool) (fmt_v : F fo -> string) (ag : aggops fo)
+         (pi pf : bytes -> option Z),
+  (exists pl, plan_stmt_text fo re fmt_v ps8_q1 = STOk pl /\
+     SelectPlans.s_limit (F fo) (q_stmt fo (sp_q fo pl)) = Some (1, 2) /\
+     select_shape_row fo re ag pi pf (no_limit fo (sp_q fo pl)) (stmt_shape (F fo) (q_stmt fo (no_limit fo (sp_q fo pl))))
+                      (scan_slots (sp_scan fo pl) ps8_store)
+       = Ok [[Order.VBytes "a"; Order.VInt 3]; [Order.VBytes "b"; Order.VInt 2];
+             [Order.VBytes "ab"; Order.VInt 1]; [Order.VBytes "c"; Order.VInt 1]]) /\
+  select_stmt_text fo re fmt_v ag pi pf ps8_q1 ps8_store MRow =
+    TOk [[Order.VBytes "b"; Order.VInt 2]; [Order.VBytes "ab"; Order.VInt 1]] /\
+  (exists pl, plan_stmt_text fo re fmt_v ps8_q2 = STOk pl /\
+     sp_shape fo pl = SAgg 1 (Some 5) /\
+     select_shape_row fo re ag pi pf (no_limit fo (sp_q fo pl)) (stmt_shape (F fo) (q_stmt fo (no_limit fo (sp_q fo pl))))
+                      (scan_slots (sp_scan fo pl) ps8_store)
+       = Ok [[Order.VBytes "3"; Order.VInt 1]; [Order.VBytes "1"; Order.VInt 2]; [Order.VBytes "2"; Order.VInt 1]]) /\
+  select_stmt_text fo re fmt_v ag pi pf ps8_q2 ps8_store MRow =
+    TOk [[Order.VBytes "1"; Order.VInt 2]; [Order.VBytes "2"; Order.VInt 1]].
+Proof.
+  intros. split.
+  { eexists. split; [vm_compute; reflexivity|]. split; vm_compute; reflexivity. }
+  split; [vm_compute; reflexivity|]. split; [|vm_compute; reflexivity].
+  eexists. split; [vm_compute; reflexivity|]. split; vm_compute; reflexivity.
+Qed.
